@@ -254,6 +254,10 @@ class TermBuilder:
                 return self.mk_cast(dty, args[0], aty)
         if g in ("std::ops::Deref::deref", "std::ops::DerefMut::deref_mut"):
             return ("deref*", args[0])
+        if c.startswith("std::arch::") and "::<" in (t.get("callee_full") or ""):
+            # const generic arguments of intrinsics (shift counts, ...) are part of the operation
+            c = normpath(t["callee_full"])
+            return ("call", c, args)
         if g == "std::iter::Iterator::next":
             # one `next` call site = one loop: keep sites apart even when their sources are equal terms
             return ("call", g, args + (("at", blk),))
